@@ -284,7 +284,12 @@ impl FieldValue {
                 )
             }
             FieldDataType::ProtocolType => {
-                let (i, protocol) = ProtocolTypes::parse(remaining)?;
+                // One byte on the wire. Numbers without a named variant decode as
+                // `Unknown` instead of failing the whole record.
+                let (i, _) = take(1_usize)(remaining)?;
+                let protocol = ProtocolTypes::parse(remaining)
+                    .map(|(_, protocol)| protocol)
+                    .unwrap_or(ProtocolTypes::Unknown);
                 (i, FieldValue::ProtocolType(protocol))
             }
             FieldDataType::Float64 => {
